@@ -529,6 +529,14 @@ fn ilv_oracle() -> crate::harness::ilv::Oracle {
                 }
             }
             Some(CommandStatus::Rejected(RejectionReason::EnoughSpaceIsNotAvailableAndKeyFailedToEvictOthers)) => {
+                // a probe put (nothing else running): what is free is the cache weight minus what the held keys are
+                // charged; a put that fits into that is always accepted
+                if put.thread == PHASE_POST {
+                    let truly_free = run.obs_end.max_weight - run.obs_end.weights.iter().map(|w| w.3).sum::<i64>();
+                    if weight <= truly_free {
+                        out.push(Finding::new("fits-but-rejected", "admission:fits-in-free-space-but-rejected", format!("{} weighs {} and {} is free (cache weight minus the charged keys) but it ended with not-enough-space", put.short(), weight, truly_free)));
+                    }
+                }
                 let free = o.max_weight - o.weight_used;
                 let swept_before_first_victim = victims.first().map_or(false, |v| sweeps.iter().any(|s| *s < v.seq));
                 if swept_before_first_victim && !evictions.is_empty() && free >= weight {
@@ -570,6 +578,13 @@ fn ilv_programs(quick: bool) -> Vec<crate::harness::ilv::Program> {
     ] {
         let mut p = mk(name, 6, init, incoming);
         p.world.iter_order_is_choice = !quick;
+        v.push(p);
+    }
+    {
+        // a weight update of a key the sweeper is removing; afterwards a put that fits into the empty cache
+        let mut p = mk("upsert(a,w=4)||{tick} sweeping a ; then put(d,6) into the empty cache/W=6", 6, vec![put_ttl(1, 2, 1000), adv(3000)], Op::Upsert { k: 1, value: true, w: Some(4), ttl_ms: None, remove_ttl: false });
+        p.post = vec![put(4, 6)];
+        p.world.iter_order_is_choice = false;
         v.push(p);
     }
     {
